@@ -88,9 +88,40 @@ func ruleC02Nav(c *Ctx, r *Rep) {
 			}
 			// pathIntact(x) before the push, inside the guard, failing with an invalidPath error
 			intact := false
+			// dominance in structured code: the check is a statement of a list, and the push lies in a later statement of
+			// the same list (a check sitting in one branch of another conditional does not cover the other branch)
+			dominates := func(ifs *ast.IfStmt) bool {
+				dom := false
+				ast.Inspect(guardIf.Body, func(q ast.Node) bool {
+					var list []ast.Stmt
+					switch b := q.(type) {
+					case *ast.BlockStmt:
+						list = b.List
+					case *ast.CaseClause:
+						list = b.Body
+					default:
+						return true
+					}
+					for i, st := range list {
+						if st != ast.Stmt(ifs) {
+							continue
+						}
+						for _, later := range list[i+1:] {
+							if later.Pos() <= call.Pos() && call.End() <= later.End() {
+								dom = true
+							}
+						}
+					}
+					return true
+				})
+				return dom
+			}
 			ast.Inspect(guardIf.Body, func(q ast.Node) bool {
 				ifs, ok := q.(*ast.IfStmt)
 				if !ok || ifs.Pos() > call.Pos() {
+					return true
+				}
+				if !dominates(ifs) {
 					return true
 				}
 				if !mentions(ifs.Cond, func(e ast.Expr) bool {
